@@ -101,25 +101,29 @@ def rev4 : List UInt8 → List UInt8
 def View.rev (v : View) : View :=
   { v with yiaddr := rev4 v.yiaddr, serverId := v.serverId.map rev4, router := v.router.map rev4, dns := rev4 v.dns }
 
-/-- the checks `malformed-reply` makes on a transmitted frame `g` for the request `f` parsed as `p`;
-    returns the name of the first failing check -/
+/-- the checks `malformed-reply` makes on a transmitted frame `g` for the request `f` parsed as `p`
+    (`none` = well-formed; otherwise the name of the first failing check):
+    frame length = L2 header + `tot_len`; `udp.len + 20 = tot_len`; EtherType and VLAN tags as received; IP
+    version/IHL/TOS and protocol as received (a request the program accepts has IHL 5 and protocol 17; the version
+    nibble and the fragment field are copied unchecked); the header passes the receiver's checksum test; UDP source
+    port 67, destination port 68 (67 when relayed); BOOTP op = BOOTREPLY; xid, chaddr and magic cookie as received;
+    the options are a TLV sequence whose END option is the last byte of the frame; `tot_len` = 20 + 8 + 240 + options. -/
 def replyDefect (f g : Frame) (p : Pkt) : Option String :=
-  let l2 := 14 + p.vlanOff
   let ipLen := be16At g (p.ipOff + 2)
   let optsArea := g.drop (p.dhcpOff + 240)
   let relayed := bytesAt f (p.dhcpOff + 24) 4 != [0, 0, 0, 0]
-  if g.length != l2 + ipLen then some "frame-length-vs-tot_len"
+  if g.length != 14 + p.vlanOff + ipLen then some "frame-length-vs-tot_len"
   else if be16At g (p.udpOff + 4) + 20 != ipLen then some "udp-len-vs-tot_len"
   else if bytesAt g 12 (p.ipOff - 12) != bytesAt f 12 (p.ipOff - 12) then some "ethertype-or-tags-changed"
-  else if bytesAt g p.ipOff 1 != bytesAt f p.ipOff 1 then some "ip-version-ihl"
-  else if bytesAt g (p.ipOff + 9) 1 != [17] then some "ip-protocol"
+  else if bytesAt g p.ipOff 2 != bytesAt f p.ipOff 2 then some "ip-version-ihl-tos"
+  else if bytesAt g (p.ipOff + 9) 1 != bytesAt f (p.ipOff + 9) 1 then some "ip-protocol"
   else if !headerSumOk (bytesAt g p.ipOff 20) then some "ip-checksum"
   else if be16At g p.udpOff != 67 then some "udp-sport"
   else if be16At g (p.udpOff + 2) != (if relayed then 67 else 68) then some "udp-dport"
   else if bytesAt g p.dhcpOff 1 != [2] then some "bootp-op"
   else if bytesAt g (p.dhcpOff + 4) 4 != bytesAt f (p.dhcpOff + 4) 4 then some "xid"
   else if bytesAt g (p.dhcpOff + 28) 16 != bytesAt f (p.dhcpOff + 28) 16 then some "chaddr"
-  else if bytesAt g (p.dhcpOff + 236) 4 != [0x63, 0x82, 0x53, 0x63] then some "magic"
+  else if bytesAt g (p.dhcpOff + 236) 4 != bytesAt f (p.dhcpOff + 236) 4 then some "magic"
   else if tlvEnd optsArea.length optsArea != some optsArea.length then some "options-do-not-end-at-frame-end"
   else if ipLen != 268 + optsArea.length then some "tot_len-vs-options"
   else none
@@ -130,5 +134,25 @@ def wantedReply (t : Option UInt8) : Option (List UInt8) :=
   | some 1 => some [2]
   | some 3 => some [5]
   | _ => none
+
+
+/-! ### what the userspace server sends (the fields C03 compares), from the cache-relevant server state -/
+
+/-- the CIDR mask of a prefix length, on the wire -/
+def maskWire (plen : Nat) : List UInt8 :=
+  let v := 4294967296 - 2 ^ (32 - plen)
+  [UInt8.ofNat (v / 16777216 % 256), UInt8.ofNat (v / 65536 % 256), UInt8.ofNat (v / 256 % 256), UInt8.ofNat (v % 256)]
+
+/-- the reply fields of `handleDiscover` / `handleRequest`: `WithYourIP(ip)`, `OptServerIdentifier(serverIP)`,
+    `OptIPAddressLeaseTime(pool.LeaseTime)`, `OptSubnetMask(pool.SubnetMask)`, `OptRouter(pool.Gateway)`,
+    `OptDNS(pool.DNSServers...)` -/
+def slowView (replyType : UInt8) (yiaddr serverIp : UInt32) (P : CacheEnc.PoolCfg) : View :=
+  { msgType := some [replyType], yiaddr := CacheEnc.ipWire yiaddr, serverId := some (CacheEnc.ipWire serverIp),
+    leaseTime := some (CacheEnc.ipWire P.leaseSecs), mask := some (maskWire P.prefixLen.toNat),
+    router := some (CacheEnc.ipWire P.gateway), dns := P.dns.flatMap CacheEnc.ipWire }
+
+/-- canonical print of a view (the harness prints the same from the real reply) -/
+def View.fields (v : View) : List (Option (List UInt8)) :=
+  [v.msgType, some v.yiaddr, v.serverId, v.leaseTime, v.mask, v.router, some v.dns]
 
 end Bng.XdpDhcpSpec
